@@ -6,8 +6,10 @@ package main
 
 import (
 	"bytes"
+	"crypto/ed25519"
 	"fmt"
 	"math/rand"
+	"sync"
 	"time"
 
 	"go.sia.tech/core/types"
@@ -22,6 +24,7 @@ type traceLine struct {
 	garb   []int
 	env    int
 	inst   int // member of the value classes the line was run with
+	lite   bool // size family, flawed witness lists: the decoded policy is compared by encoding and address only
 	v      bool
 	dec    bool
 	origin string
@@ -194,6 +197,38 @@ func depthOf(n *node) int {
 	return d
 }
 
+// A hang is not decided by the clock alone: on a machine shared with other work a process can be
+// starved for longer than any sensible deadline. When the deadline of a case has passed, the
+// watchdog itself - scheduled like every other goroutine of this process - does reference work worth
+// many times what the largest case needs (40 000 ed25519 verifications with the standard library,
+// the largest case needs about 4 100) and looks for the result in between. Only a case that has
+// still not returned after that is reported as hanging.
+var (
+	refOnce sync.Once
+	refPub  ed25519.PublicKey
+	refSig  []byte
+	refMsg  = []byte("verif c14 reference work")
+)
+
+func stillHangs(finished func() bool) bool {
+	refOnce.Do(func() {
+		var priv ed25519.PrivateKey
+		refPub, priv, _ = ed25519.GenerateKey(rand.New(rand.NewSource(99)))
+		refSig = ed25519.Sign(priv, refMsg)
+	})
+	for chunk := 0; chunk < 200; chunk++ {
+		if finished() {
+			return false
+		}
+		for i := 0; i < 200; i++ {
+			if !ed25519.Verify(refPub, refMsg, refSig) {
+				panic("reference signature does not verify")
+			}
+		}
+	}
+	return !finished()
+}
+
 // execLine runs the real code for one line with a deadline: Verify, the encoder and decoder.
 func execLine(l *traceLine, envs []*env, deadline time.Duration) (hang bool, panicked bool, detail string) {
 	type result struct {
@@ -216,7 +251,7 @@ func execLine(l *traceLine, envs []*env, deadline time.Duration) (hang bool, pan
 				// the decoded policy is the same policy: same encoding, same verdict
 				if !bytes.Equal(encodePolicy(back), enc) {
 					res.detail = "decode(encode(p)) re-encodes differently"
-				} else if e.tUnit >= time.Second && (back.Verify(e.height(l.h), e.time(l.t), e.sigHash, sigs, pres) == nil) != res.v {
+				} else if !l.lite && e.tUnit >= time.Second && (back.Verify(e.height(l.h), e.time(l.t), e.sigHash, sigs, pres) == nil) != res.v {
 					res.detail = "decode(encode(p)) has a different verdict"
 				} else if back.Address() != pol.Address() {
 					res.detail = "decode(encode(p)) has a different address"
@@ -231,13 +266,27 @@ func execLine(l *traceLine, envs []*env, deadline time.Duration) (hang bool, pan
 		}
 		ch <- res
 	}()
+	var res result
+	got := false
 	select {
-	case res := <-ch:
-		l.v, l.dec = res.v, res.dec
-		return false, res.panicked, res.detail
+	case res = <-ch:
+		got = true
 	case <-time.After(deadline):
-		return true, false, ""
+		if stillHangs(func() bool {
+			if !got {
+				select {
+				case res = <-ch:
+					got = true
+				default:
+				}
+			}
+			return got
+		}) {
+			return true, false, ""
+		}
 	}
+	l.v, l.dec = res.v, res.dec
+	return false, res.panicked, res.detail
 }
 
 // pickEnvInst draws an environment and a member of the value classes that is valid in it for n
@@ -421,13 +470,27 @@ func decoderBomb(c *vlib.Ctx) {
 			}
 			done <- err
 		}()
+		var err error
+		got := false
 		select {
-		case err := <-done:
-			if err == nil {
-				c.Violation("decode-depth-accepted", fmt.Sprintf("decoder accepts a policy nested %d deep (limit 32)", depth), map[string]any{"kind": "decode-depth", "depth": depth})
-			}
+		case err = <-done:
+			got = true
 		case <-time.After(20 * time.Second):
-			c.Violation("decode-hang", fmt.Sprintf("decoding a policy nested %d deep did not finish within 20 s", depth), map[string]any{"kind": "decode-depth", "depth": depth})
+			if stillHangs(func() bool {
+				if !got {
+					select {
+					case err = <-done:
+						got = true
+					default:
+					}
+				}
+				return got
+			}) {
+				c.Violation("decode-hang", fmt.Sprintf("decoding a policy nested %d deep did not finish within 20 s", depth), map[string]any{"kind": "decode-depth", "depth": depth})
+			}
+		}
+		if got && err == nil {
+			c.Violation("decode-depth-accepted", fmt.Sprintf("decoder accepts a policy nested %d deep (limit 32)", depth), map[string]any{"kind": "decode-depth", "depth": depth})
 		}
 		c.Count(1, 1)
 	}
